@@ -161,18 +161,6 @@ int vsnprintf(char *dst, size_t cap, const char *fmt, va_list ap) {
   return nondet_int();
 }
 
-/* ---- realloc: CBMC's model copies the old array (__CPROVER_array_copy), which exhausts memory
- * on symbolic-size arrays of structs.  Over-approximation: the new block has arbitrary contents
- * (a superset of "old contents preserved"); allocation/free discipline is CBMC's own. */
-#include <stdlib.h>
-void *realloc(void *ptr, size_t size) {
-  if (nondet_bool()) return (void *)0;            /* may fail: old block untouched */
-  if (size == 0) size = 1;
-  void *res = malloc(size);
-  if (res != (void *)0 && ptr != (void *)0) free(ptr);
-  return res;
-}
-
 /* ---- memory primitives: the shared contracts, plus an exact memcmp on request -------------- */
 #ifdef CQV_EXACT_MEMCMP
 /* jobs that define this list extra_sources=[] : the shared mem_stubs.c is textually reused with
